@@ -1,32 +1,45 @@
 """Seeded generator of VALID CellML 2.0 models for the whole-model layer of C03 (reusable by C17).
 
-    generate(seed, mdl=None, workdir=None, unsafe_prob=0.15, nla_prob=0.08) -> dict
+    generate(seed, mdl=None, workdir=None, unsafe_prob=0.15, nla_prob=0.08, allowed_plants=None) -> dict
         desc   model description (format documented in gen/matheval.py)
         xml    the CellML 2.0 text (what the library is given)
         meta   {"seed", "voi": value of the variable of integration used for evaluation (in the units of the
                 predicted primary voi variable), "unsafe": the model deliberately contains known mis-printed shapes,
-                "planted": [finding ids planted], "nla": n systems, "scaled_connections": n, "ops": {op: count}, ...}
+                "planted": [finding ids planted], "nla": n systems, "scaled_connections": n, "components", "states",
+                "equations", "nested_equations" (equations with an operator nested in an operator), "ops": operator
+                histogram of the final text, "attempts"}
 
 What a model looks like
     * 2-4 sibling components (no encapsulation); every connected variable has interface="public".
-    * constants (initial_value), computed constants, algebraic variables (depend on states / the voi), ODE states
-      (`d x/d t = f(...)`, the initial value sometimes sits on an equivalent variable of another component),
-      optionally the rate of a state used on a right-hand side, optionally ONE small NLA system (a single
-      non-isolated unknown, or 2 unknowns with initial guesses, linear or mildly non-linear).
+    * constants (initial_value, in all the number forms CellML allows), computed constants, algebraic variables
+      (depend on states / the voi), ODE states (`d x/d t = f(...)`; the initial value sometimes sits on an
+      equivalent variable of another component), sometimes the rate of a state used on a right-hand side, sometimes
+      the unknown on the right (`f(...) = y`), optionally ONE small NLA system (a single non-isolated unknown without
+      initial value, or 2 unknowns with initial guesses, linear or mildly non-linear, with a known exact solution).
     * every reference to a quantity of another component goes through a local variable joined by a <connection>;
-      that local variable usually has COMPATIBLE-BUT-SCALED units (prefix, multiplier, nested user units), so the
-      analyser has to insert scaling factors.  Unit children with an exponent other than 1 never carry a prefix
-      (libcellml's Units::scalingFactor mishandles that combination; it is C08's finding, not C03's).
+      that local variable usually has COMPATIBLE-BUT-SCALED units (prefix name or number, multiplier, nested user
+      units, compound units), so the analyser has to insert scaling factors; a class may have two members in an
+      importing component.  Unit children with an exponent other than 1 never carry a prefix (libcellml's
+      Units::scalingFactor mishandles that combination; it is C08's finding, not C03's).
       Equations are not dimensionally consistent in general: the analyser reports that as warnings only.
-    * right-hand sides are random expression trees over the whole MathML operator set CellML supports, in every
-      nesting pattern, with numerically tame values: every sub-expression is evaluated with the reference evaluator
-      in strict mode while it is built (finite, |v| <= 1e6, no comparison / floor / rem / min / max near a tie, no
-      argument near a domain edge or pole, no heavy cancellation) and the finished model must pass a perturbation
-      test (all outputs stable under relative 1e-12 noise on the literals).
+    * right-hand sides are random expression trees over the whole MathML operator set CellML supports (n-ary plus /
+      times / and / or / xor / min / max, unary plus / minus, power, root and log with and without qualifier, all
+      trigonometric families, relational and logical operators also used as numbers, piecewise with 1-3 pieces with
+      and without otherwise, the constants, `infinity` only as a comparison operand, never `notanumber`), every
+      operator allowed in every operand position, with numerically tame values: every sub-expression is evaluated with
+      the reference evaluator in strict mode while it is built (finite, |v| <= 1e6, no comparison / floor / rem / min
+      / max near a tie, no argument near a domain edge or pole, no heavy cancellation; arguments are wrapped into
+      the function's domain, which adds nesting) and the finished model must pass a perturbation test (all outputs
+      stable under relative 1e-12 noise on the literals).
+    * exponents and degrees mention only numbers and variables that carry an initial_value in the same component,
+      unless everything in the equation is dimensionless: Analyser::analyseEquationUnits dereferences a null AST child
+      (SIGSEGV) otherwise (see ExprGen.__init__); that is a defect of its own, outside C03.
     * shape safety: with `mdl` (path of the extracted Coq model `vf.ocaml_driver("gen")`) every right-hand side is
       converted to the AST exactly as Analyser::analyseNode + scaleEquationAst build it (`model_equation_asts`) and asked
-      for safety in both profiles; in a SAFE model (default) unsafe candidates are re-drawn, in an UNSAFE model
-      (probability unsafe_prob) known mis-printed shapes are planted on purpose (PLANTS) and nothing is re-drawn.
+      for safety in both profiles; in a SAFE model (default) unsafe candidates are re-drawn and the shapes
+      `known = unknown` with a scaled bare known variable on the left, `y = d x/d t` with a scaled voi and
+      `d x/d t = x` are avoided; in an UNSAFE model (probability unsafe_prob) known mis-printed shapes are planted on
+      purpose (PLANTS, restricted to allowed_plants) and nothing is re-drawn.
       Without `mdl` nothing is filtered (meta["unfiltered"] = True).
 
 `model_equation_asts(desc, res, primaries)` and `safety_query(mdl, asts, workdir, tag)` are public: the
@@ -947,10 +960,9 @@ def _generate_once(seed, mdl, workdir, unsafe_prob, nla_prob, tag, allowed):
 
     def pick_safe(ci, kind_of_eq, make, lhs_for_ast):
         """draw candidates until one is safe in both profiles (safe models), else the first one"""
-        cands = []
         if mdl is None or unsafe:
             return make()
-        for rnd in range(4):
+        for _round in range(4):
             batch = []
             for _ in range(3):
                 try:
@@ -1069,7 +1081,7 @@ def _generate_once(seed, mdl, workdir, unsafe_prob, nla_prob, tag, allowed):
 
     # ---- the rate of a state used on a right-hand side (rare)
     if has_ode and rng.random() < 0.10:
-        k, ci_home, xname = rng.choice(states)
+        k = rng.choice(states)[0]
         ci = rng.choice(sorted({m[0] for m in M.classes[voi_k]["members"]}))
         xn = M.local(k, ci)
         tn = [m[1] for m in M.classes[voi_k]["members"] if m[0] == ci][0]
